@@ -43,6 +43,18 @@ mut("getitem-drops-unit", "core/array.py", "values=self._array[slice_], unit=sel
 mut("maybe-array-quantity", "core/array.py", "            return arg.magnitude\n        return arg", "            return arg\n        return arg", ["C02", "C10"])
 mut("ufunc-refuses-reduce-only", "core/base.py", "        if method != \"__call__\":", "        if method == \"reduce\":", ["C10"])
 mut("array-function-drops-kwargs", "core/base.py", "return self._wrap_numpy(func, *args, **kwargs)", "return self._wrap_numpy(func, *args)", ["C10"])
+# ---- end-to-end folds (quantity stack, histories over shared state, constructor and slice semantics)
+mut("array-init-casts-to-float", "core/array.py", "            self._array = np.asarray(self._array)", "            self._array = np.asarray(self._array, dtype=float)", ["C07"])
+mut("to-shortcut-on-ratio-one", "core/array.py", "        if self.unit == new_unit:\n            return self", "        if (1.0 * self.unit).to(new_unit).magnitude == 1.0:\n            return self", ["C08"])
+mut("ufunc-forwards-reduce", "core/base.py", "        if method != \"__call__\":", "        if method in (\"reduce\", \"accumulate\"):\n            return self._wrap_numpy(getattr(ufunc, method), *inputs, **kwargs)\n        if method != \"__call__\":", ["C10"])
+mut("binary-op-out-by-truth", "core/array.py", "    return op(lhs, rhs, **kwargs)", "    if kwargs.get(\"out\"):\n        return op(lhs, rhs, **kwargs)\n    return op(lhs, rhs)", ["C17"])
+mut("datagroup-keys-list", "core/datagroup.py", "        return self._container.keys()", "        return list(self._container)", ["C20"])
+mut("datagroup-init-bypasses-gate", "core/datagroup.py", "            self[key] = array", "            self._container[key] = array\n            array.name = key", ["C06", "C20"])
+mut("vector-getitem-resolves-slice", "core/vector.py", "    def __getitem__(self, slice_):\n        return self.__class__(", "    def __getitem__(self, slice_):\n        if isinstance(slice_, slice):\n            slice_ = slice(*slice_.indices(len(self)))\n        return self.__class__(", ["C06"])
+mut("registry-gaussian-context", "units/units.py", 'self._ureg = UnitRegistry(system="cgs")', 'self._ureg = UnitRegistry(system="cgs")\n        self._ureg.enable_contexts("Gaussian")', ["C07", "C08"])
+mut("map-direction-gets-depth", "plot/map.py", "            dy=dy,\n            origin=origin,", "            dy=dz,\n            origin=origin,", ["C18"])
+mut("unitslibrary-shared-memo", "units/library.py", "    def __getitem__(self, key):\n        if key in self._library:\n            return self._library[key]", "    _memo = {}\n\n    def __getitem__(self, key):\n        if key in self._memo:\n            return self._memo[key]\n        self._memo[key] = self._lookup(key)\n        return self._memo[key]\n\n    def _lookup(self, key):\n        if key in self._library:\n            return self._library[key]", ["C01"])
+mut("conditions-single-key", "io/reader.py", "                    conditions[key] = func(self.variables[key][\"buffer\"])", "                    conditions[\"select\"] = func(self.variables[key][\"buffer\"]) & conditions.get(\"select\", True)", ["C12", "C04"])
 # ---- core/vector.py
 mut("cross-sign", "core/vector.py", "        y = self.z * other.x\n        y -= self.x * other.z", "        y = self.x * other.z\n        y -= self.z * other.x", ["C09"])
 mut("cross-index", "core/vector.py", "        z = self.x * other.y\n        z -= self.y * other.x", "        z = self.x * other.y\n        z -= self.y * other.z", ["C09"])
